@@ -662,8 +662,20 @@ fn gen_script(rng: &mut Rng, tier: Tier) -> Script {
             8 => format!("echo {} | {{ read x; echo \"got $x\"; rc 6; }}; echo \"?=$?\"", word(&mut w)),
             9 => format!("{{ nap {}; echo late; }} | {{ read y; echo \"y=$y\"; }}; echo \"?=$?\"", rng.range(1, 4)),
             10 => format!("nap {}; echo \"?=$?\"", rng.range(1, 4)),
-            11 => format!("{{ nap {}; exit 0; }} & p=$!; until wait $p; do :; done; echo waited{i}", rng.range(1, 5)),
+            11 => format!(
+                "{{ nap {}; exit 0; }} & p=$!; until {}wait $p; do :; done; echo waited{i}",
+                rng.range(1, 5),
+                if rng.below(3) == 0 { "command " } else { "" }
+            ),
             _ => format!("( echo {}; exit 8 ); echo \"?=$?\"", word(&mut w)),
+        };
+        // a built-in that runs commands of its own (and their trap actions)
+        // inside another built-in: in an interactive shell `command` runs next
+        // to the helper that records caught signals, `eval` does not
+        let line = match rng.below(8) {
+            0 => format!("eval '{line}'"),
+            1 | 2 => format!("command eval '{line}'"),
+            _ => line,
         };
         lines.push(line);
     }
@@ -889,7 +901,7 @@ impl Prop for C11 {
         "exploration"
     }
     fn rule(&self) -> String {
-        "Engine (a): seeded histories of up to 25 operations over {set trap action default/ignore/command with and without override for USR1, CHLD, INT, TERM, QUIT, TSTP, TTIN, KILL, STOP and EXIT; enable/disable the internal dispositions (SIGCHLD; terminators; stoppers; all); enter_subshell with each option combination; mark caught / take caught} x each signal initially default or ignored, applied to the real TrapSet against the real Rc<Concurrent<VirtualSystem>>; after every operation, for every signal: disposition read from the simulated process == max(internal, disposition of the trap action) of the reference, blocked <=> caught, listing == reference, error == reference. A history is distinct non-trivial if the trajectory of (disposition, internal, action) over all signals and operations is new. Engine (b): scripts of simple commands, compound commands, functions, command substitutions, pipelines, a read from a slow pipe, sleeps and an interruptible wait, with traps on USR1/USR2 (command, ignored or none) whose actions log begin/end markers and end with a failing command; the simulator sends 1-4 signals to the main shell at seeded scheduler steps while the traps are installed (spaced: next one only after the previous action ended; burst: any time), under seeded schedules with preemption between kernel calls. Oracles: stdout, every printed $? and the final status equal those of the same script without signals; trap runs == deliveries (spaced) / 1..=deliveries (burst, identical pending signals may coalesce); a trap never starts inside another; distinct = (script, schedule hash, signal count). Fixed scenarios (no simulator-sent signals, a child sends them): two trapped signals pending at one command boundary while the first action diverts (break / continue / return / resets the other trap); the `wait` built-in blocked inside a trap action when another trapped signal arrives (it returns > 128 and that action runs at once, nested). A quarter of the scripts run as interactive shells (`-i`: built-ins are interruptible and run next to a helper that records caught signals), a third read lines from a standard input written by a slow feeder process, so that the main shell blocks in `read` while signals arrive.".into()
+        "Engine (a): seeded histories of up to 25 operations over {set trap action default/ignore/command with and without override for USR1, CHLD, INT, TERM, QUIT, TSTP, TTIN, KILL, STOP and EXIT; enable/disable the internal dispositions (SIGCHLD; terminators; stoppers; all); enter_subshell with each option combination; mark caught / take caught} x each signal initially default or ignored, applied to the real TrapSet against the real Rc<Concurrent<VirtualSystem>>; after every operation, for every signal: disposition read from the simulated process == max(internal, disposition of the trap action) of the reference, blocked <=> caught, listing == reference, error == reference. A history is distinct non-trivial if the trajectory of (disposition, internal, action) over all signals and operations is new. Engine (b): scripts of simple commands, compound commands, functions, command substitutions, pipelines, a read from a slow pipe, sleeps and an interruptible wait, with traps on USR1/USR2 (command, ignored or none) whose actions log begin/end markers and end with a failing command; the simulator sends 1-4 signals to the main shell at seeded scheduler steps while the traps are installed (spaced: next one only after the previous action ended; burst: any time), under seeded schedules with preemption between kernel calls. Oracles: stdout, every printed $? and the final status equal those of the same script without signals; trap runs == deliveries (spaced) / 1..=deliveries (burst, identical pending signals may coalesce); a trap never starts inside another; distinct = (script, schedule hash, signal count). Fixed scenarios (no simulator-sent signals, a child sends them): two trapped signals pending at one command boundary while the first action diverts (break / continue / return / resets the other trap); the `wait` built-in blocked inside a trap action when another trapped signal arrives (it returns > 128 and that action runs at once, nested). A quarter of the scripts run as interactive shells (`-i`: built-ins are interruptible and run next to a helper that records caught signals), a third read lines from a standard input written by a slow feeder process, so that the main shell blocks in `read` while signals arrive. A quarter of the script lines are wrapped in `eval` / `command eval` (and `command wait` in the wait loops): commands whose trap actions run inside a built-in.".into()
     }
     fn assumptions(&self) -> Vec<String> {
         vec![
